@@ -192,6 +192,7 @@ Section Eff.
   Variable slm : slmode.
   Variable dfm ddm : N.
   Variable own : bool.
+  Variable fixed : bool.
 
   Lemma removed_if_eff : forall h n s s' ok V,
     removed_if h n s s' ok V -> eff h n s s'.
@@ -320,7 +321,7 @@ Section Eff.
   Qed.
 
   Lemma create_link_eff : forall h n p target s s' r,
-    create_link norm E slm own h n p target s = (s', r) -> eff h n s s'.
+    create_link norm E slm own fixed h n p target s = (s', r) -> eff h n s s'.
   Proof.
     intros h n p target s s' r H. unfold create_link in H.
     destruct (slmode_eqb slm SLIgnore); [injection H as <- _; apply eff_refl|].
@@ -333,7 +334,11 @@ Section Eff.
     destruct (run (liftF (symlink (quiet E) h n (entry_target target))) s) as [s1 r1] eqn:SL.
     pose proof (symlink_eff _ _ _ _ _ _ SL) as E1.
     destruct r1 as [[]|e1|]; [|injection H as <- _; exact E1|injection H as <- _; exact E1].
-    eapply eff_trans; [exact E1|]. eapply set_permissions_eff. exact H.
+    destruct (run (liftF (set_permissions (quiet E) h n own 0)) s1) as [s2 r2] eqn:SP.
+    pose proof SP as E2. eapply set_permissions_eff in E2.
+    assert (eff h n s s2) as E02 by (eapply eff_trans; eassumption).
+    destruct r2 as [[]|e2|]; [injection H as <- _; exact E02| |];
+      (destruct fixed; injection H as <- _; [eapply eff_trans; [exact E02|apply eff_problem]|exact E02]).
   Qed.
 
 End Eff.
@@ -349,6 +354,7 @@ Section EffRec.
   Variable slm : slmode.
   Variable dfm ddm : N.
   Variable own : bool.
+  Variable fixed : bool.
 
   Definition hof (p : path) : path := match p with [] => [] | _ => rn :: removelast p end.
   Definition lof (p : path) : name := match p with [] => rn | _ => last p "" end.
@@ -470,7 +476,7 @@ Section EffRec.
 
   Lemma create_loop_eff : forall rec h n p tc created s s' cr,
     crec_eff rec ->
-    create_loop norm E slm dfm own rec (h ++ [n]) p tc created s = (s', cr) ->
+    create_loop norm E slm dfm own fixed rec (h ++ [n]) p tc created s = (s', cr) ->
     eff h n s s'.
   Proof.
     intros rec h n p tc. induction tc as [|[k e] rest IH]; intros created s s' cr HR H;
@@ -489,9 +495,9 @@ Section EffRec.
         * eapply IH; eassumption.
         * eapply eff_trans; [apply eff_problem|]. eapply IH; eassumption.
         * eapply eff_trans; [apply eff_problem|]. eapply IH; eassumption.
-      + match type of H with context [create_link ?a ?b ?c ?d ?e ?f ?g ?i ?j] =>
-          destruct (create_link a b c d e f g i j) as [s1 r] eqn:R end.
-        pose proof (eff_lift _ _ _ _ _ (create_link_eff _ _ _ _ _ _ _ _ _ _ _ R)) as E1.
+      + match type of H with context [create_link ?a ?b ?c ?d ?e ?f ?g ?i ?j ?k0] =>
+          destruct (create_link a b c d e f g i j k0) as [s1 r] eqn:R end.
+        pose proof R as E1. eapply create_link_eff in E1. apply eff_lift in E1.
         destruct r as [[]|e|]; (eapply eff_trans; [exact E1|]).
         * eapply IH; eassumption.
         * eapply eff_trans; [apply eff_problem|]. eapply IH; eassumption.
@@ -508,7 +514,7 @@ Section EffRec.
   Qed.
 
   Lemma create_dir_eff : forall fuel h n p tc s s' r,
-    create_dir_f norm E slm dfm ddm own fuel h n p tc s = (s', r) -> eff h n s s'.
+    create_dir_f norm E slm dfm ddm own fixed fuel h n p tc s = (s', r) -> eff h n s s'.
   Proof.
     induction fuel as [|fuel IH]; intros h n p tc s s' r H; cbn [create_dir_f] in H.
     - injection H as <- _. apply eff_problem.
@@ -533,7 +539,7 @@ Section EffRec.
         [|injection H as <- _; eapply eff_trans; [exact E02|]; eapply eff_trans; [exact E3|apply eff_problem]
          |injection H as <- _; eapply eff_trans; [exact E02|]; eapply eff_trans; [exact E3|apply eff_problem]].
       destruct (R3 d eq_refl Hn) as [-> _].
-      destruct (create_loop norm E slm dfm own (create_dir_f norm E slm dfm ddm own fuel) (h ++ [n]) p
+      destruct (create_loop norm E slm dfm own fixed (create_dir_f norm E slm dfm ddm own fixed fuel) (h ++ [n]) p
                             (ke :: rest) [] s3) as [s4 cr] eqn:CL.
       injection H as <- _. eapply eff_trans; [exact E02|]. eapply eff_trans; [exact E3|].
       eapply create_loop_eff; [|exact CL]. intros d0 n0 cp tc0 sa sb rb Hr. eapply IH. exact Hr.
@@ -587,7 +593,7 @@ Section EffRec.
   Qed.
 
   Lemma create_eff : forall p e s s' r,
-    create norm E rn slm dfm ddm own p e s = (s', r) -> path_ok p -> eff (hof p) (lof p) s s'.
+    create norm E rn slm dfm ddm own fixed p e s = (s', r) -> path_ok p -> eff (hof p) (lof p) s s'.
   Proof.
     intros p e s s' r H Hp. unfold create in H. destruct e as [e0|]; [|injection H as <- _; apply eff_refl].
     destruct (walk E rn p false s) as [s1 r1] eqn:W.
@@ -597,7 +603,7 @@ Section EffRec.
        |injection H as <- _; eapply eff_trans; [exact E1|apply eff_problem]].
     destruct (walk_hof _ _ _ _ _ _ W Hp) as [-> ->].
     destruct e0 as [tc|x dg|t| |msg|pc].
-    - destruct (create_dir_f norm E slm dfm ddm own (depth_entry (EDir tc)) (hof p) (lof p) p tc s1) as [s2 r2] eqn:R.
+    - destruct (create_dir_f norm E slm dfm ddm own fixed (depth_entry (EDir tc)) (hof p) (lof p) p tc s1) as [s2 r2] eqn:R.
       pose proof R as E2. eapply create_dir_eff in E2.
       injection H as <- _. eapply eff_trans; eassumption.
     - destruct (create_file E dfm own (hof p) (lof p) p (EFile x dg) s1) as [s2 r2] eqn:R.
@@ -606,7 +612,7 @@ Section EffRec.
       + eapply eff_trans; eassumption.
       + eapply eff_trans; [exact E1|]. eapply eff_trans; [exact E2|apply eff_problem].
       + eapply eff_trans; [exact E1|]. eapply eff_trans; [exact E2|apply eff_problem].
-    - destruct (create_link norm E slm own (hof p) (lof p) p (ELink t) s1) as [s2 r2] eqn:R.
+    - destruct (create_link norm E slm own fixed (hof p) (lof p) p (ELink t) s1) as [s2 r2] eqn:R.
       pose proof R as E2. eapply create_link_eff in E2.
       destruct r2 as [[]|e2|]; injection H as <- _.
       + eapply eff_trans; eassumption.
@@ -642,7 +648,7 @@ Section EffRec.
   Qed.
 
   Lemma trans_one_eff : forall c s s' r,
-    trans_one norm E rn ch slm dfm ddm own c s = (s', r) -> path_ok (cpath c) ->
+    trans_one norm E rn ch slm dfm ddm own fixed c s = (s', r) -> path_ok (cpath c) ->
     eff (hof (cpath c)) (lof (cpath c)) s s'.
   Proof.
     intros c s s' r H Hp. unfold trans_one in H.
@@ -650,7 +656,7 @@ Section EffRec.
     assert (forall s0 s1 r0, (let '(s1, r) := remove norm E rn ch slm (cpath c) (cold c) s0 in
                 match r with
                 | Some _ => (s1, r)
-                | None => create norm E rn slm dfm ddm own (cpath c) (cnew c) s1
+                | None => create norm E rn slm dfm ddm own fixed (cpath c) (cnew c) s1
                 end) = (s1, r0) -> eff (hof (cpath c)) (lof (cpath c)) s0 s1) as RC.
     { intros s0 s1 r0 H0. destruct (remove norm E rn ch slm (cpath c) (cold c) s0) as [sa ra] eqn:R.
       pose proof (remove_eff _ _ _ _ _ R Hp) as Ea.
